@@ -1810,7 +1810,7 @@ func main() {
 	root := common.NewRng(common.Seed())
 	thorough := a.Tier == "thorough"
 	if thorough {
-		timeoutOneIn = 250
+		timeoutOneIn = 600
 	}
 	for k := 0; k < total; k++ {
 		if a.Only >= 0 && k != a.Only {
